@@ -89,3 +89,20 @@ Print Assumptions c03_ddmin_reduce_terminates.
 Theorem c03_ddmin_adoptions_bounded_by_measure : ltac:(let t := type of top_reduce_mu in exact t).
 Proof. exact top_reduce_mu. Qed.
 Print Assumptions c03_ddmin_adoptions_bounded_by_measure.
+
+(* further per-mutator termination facts (Model/OracleRw.v, Model/GlobalRw.v): ReplaceByVariable on leaves follows a strict
+   order on names (no chain of leaf replacements returns); Constants proposes nothing for a default constant; string constants
+   get strictly shorter; EliminateVariable passes its occurs check *)
+From DD Require Import Props.OracleRwProps Props.GlobalRwProps.
+Theorem c03_replace_by_var_no_cycle : ltac:(let t := type of rw_replace_by_var_no_cycle in exact t).
+Proof. exact rw_replace_by_var_no_cycle. Qed.
+Print Assumptions c03_replace_by_var_no_cycle.
+Theorem c03_constants_fixpoint : ltac:(let t := type of rw_constants_fixpoint in exact t).
+Proof. exact rw_constants_fixpoint. Qed.
+Print Assumptions c03_constants_fixpoint.
+Theorem c03_str_simp_const_shorter : ltac:(let t := type of rw_str_simp_const_shorter in exact t).
+Proof. exact rw_str_simp_const_shorter. Qed.
+Print Assumptions c03_str_simp_const_shorter.
+Theorem c03_elim_var_occurs_check : ltac:(let t := type of rw_elim_var_sound in exact t).
+Proof. exact rw_elim_var_sound. Qed.
+Print Assumptions c03_elim_var_occurs_check.
